@@ -42,8 +42,11 @@ class Include(DirectivePlugin):
                 "raw": "Could not find file: " + relpath,
             }
 
-        with open(dest, "rb") as f:
-            content = f.read().decode(encoding)
+        try:
+            with open(dest, "rb") as f:
+                content = f.read().decode(encoding)
+        except LookupError:
+            return {"type": "block_error", "raw": "Unknown encoding: " + encoding}
 
         ext = os.path.splitext(relpath)[1]
         if ext in {".md", ".markdown", ".mkd"}:
